@@ -323,6 +323,17 @@ def make_classes(ctx: Ctx) -> Dict[str, type]:
 
         def _build(self, op, markets):
             k = op["k"]
+            if k == "open":
+                # the agent opens an account on a market it had no access to (public Agent.set_market_accessible)
+                for m_ in self.simulator.markets:
+                    if not self.is_market_accessible(m_.market_id):
+                        self.set_market_accessible(market_id=m_.market_id)
+                        self.acc.append(m_.market_id)
+                        if self.agent_id in mon.ledger.shares:
+                            mon.ledger.shares[self.agent_id].setdefault(m_.market_id, 0)
+                        mon.probe("market_opened_mid_run")
+                        break
+                return None
             market = self._market(op)
             if market is None:
                 return None
